@@ -121,6 +121,14 @@ class Prop:
         out.append('G:%d:%d:%d:%d' % (micro(-40.0), micro(0.5), micro(40.0), micro(40.0)))
         out.append('G:%d:%d:%d:%d' % (micro(-40.0), micro(-40.0), micro(-0.001), micro(-0.001)))
         out.append('D:%d:%d:%d' % (micro(20.0), micro(20.0), 512 * 100 * UNIT))
+        # boxes as wide as the map: the whole world, a pure latitude band (-180 .. 180), the two hemispheres
+        out.append('G:%d:%d:%d:%d' % (micro(-90.0), micro(-180.0), micro(90.0), micro(180.0)))
+        out.append('G:%d:%d:%d:%d' % (micro(-25.0), micro(-180.0), micro(25.0), micro(180.0)))
+        out.append('G:%d:%d:%d:%d' % (micro(-90.0), micro(0.0), micro(90.0), micro(180.0)))
+        out.append('G:%d:%d:%d:%d' % (micro(-90.0), micro(-180.0), micro(90.0), micro(0.0)))
+        # circles larger than half the circumference of the earth ("no limit")
+        out.append('D:%d:%d:%d' % (micro(10.0), micro(10.0), 512 * 25000 * UNIT))
+        out.append('D:%d:%d:%d' % (micro(-30.0), micro(100.0), 512 * 40075 * UNIT))
         # circles that miss / include a position by a fifth of a metre (a distance rounded to metres or to three
         # decimals of a kilometre before the comparison decides these wrongly)
         for la, lo in (rng.sample(pos, min(4, len(pos))) if pos else []):
